@@ -18,6 +18,7 @@ EXTENDS Wallet, Json
 CONSTANTS GenDepth,     \* length of the histories to emit
           GenForkLen,   \* max length of a new branch (0: no reorganisations)
           GenForkDepth, \* max number of best-chain blocks a Fork detaches
+          Removable,    \* wallets the generator may remove
           GenPending,   \* TRUE: Announce / HandleTx enabled
           Script,       \* <<>>: free generation; otherwise the exact action sequence to follow
                         \* (regression histories: TLC recomputes the expected views for them)
@@ -30,7 +31,7 @@ gvars == <<vars, hist>>
 \* the constant universe, printed once so that the replayer needs no second copy
 Universe == [wallets |-> Wallets, txins |-> TxIns, txouts |-> TxOuts,
              cbid |-> CbId, cbout |-> CbOut, base |-> Base, cbmat |-> CbMat,
-             bindlock |-> BindLock]
+             bindlock |-> BindLock, initabsent |-> InitAbsent, importbatch |-> ImportBatch]
 ASSUME PrintT(<<"UNIV", ToJson(Universe)>>)
 
 Expect ==
@@ -40,13 +41,14 @@ Expect ==
           onbest |-> wchain' = best',
           best |-> best',
           pend |-> pend',
-          pendIdeal |-> Settle(pend', CC(wchain)'),
-          views |-> [w \in Wallets |-> View(CC(wchain)', pend', w)]]
+          pendIdeal |-> Settle(pend', CC(wchain)') \cup {t \in pend' : ~Relevant(t, Ready')},
+          status |-> status',
+          views |-> [w \in Ready' |-> View(CC(wchain)', pend', w)]]
     ELSE [q |-> FALSE]
 
 Log(r) == hist' = Append(hist, r @@ [exp |-> Expect])
 
-CanFinish == Len(ntfB') + Len(ntfT') + (IF up' THEN 0 ELSE 1) <= GenDepth - (Len(hist) + 1)
+CanFinish == Len(ntfB') + Len(ntfT') + Len(tasks') + (IF up' THEN 0 ELSE 1) <= GenDepth - (Len(hist) + 1)
 
 \* how an accepted announcement relates to the wallet's own chain (classifier of known findings):
 \*  "stale" - an input is already spent on the wallet's chain or on the node's (a conflict confirmed first)
@@ -68,6 +70,7 @@ SameAct(r, s) ==
          [] s.a \in {"HandleBlock", "SwitchTo"} -> r.b = s.b
          [] s.a \in {"Announce", "HandleTx"}    -> r.t = s.t
          [] s.a = "RestartCrash"               -> r.k = s.k
+         [] s.a \in {"Import", "Remove", "ImportStep", "RemoveStep"} -> r.w = s.w
          [] OTHER                              -> TRUE
 
 GenNext ==
@@ -91,7 +94,18 @@ GenNext ==
           /\ \E t \in Pick({x \in TxIds : PoolOK(x, pool, CC(best))}) :
              /\ Announce(t) /\ UNCHANGED followerVars
              /\ Log([a |-> "Announce", t |-> t])
-       \/ /\ Crashes /\ Crash /\ Log([a |-> "Crash"])
+       \/ /\ Lifecycle
+          /\ \E x \in Pick({y \in Wallets : status[y] = "absent" /\ ~Busy /\ up}) :
+                Import(x) /\ Log([a |-> "Import", w |-> x])
+       \/ /\ Lifecycle
+          /\ \E x \in Pick({y \in Wallets : status[y] = "ready" /\ ~Busy /\ up /\ y \in Removable}) :
+                Remove(x) /\ Log([a |-> "Remove", w |-> x])
+       \/ /\ Lifecycle /\ ImportStep
+          /\ Log([a |-> "ImportStep", w |-> Head(tasks)[2], cur |-> cursor'[Head(tasks)[2]],
+                  done |-> status'[Head(tasks)[2]] = "ready"])
+       \/ /\ Lifecycle /\ RemoveStep /\ Log([a |-> "RemoveStep", w |-> Head(tasks)[2]])
+       \/ /\ Crashes /\ Cardinality(TaskSet) <= 1     \* (the order in which a restart re-queues several tasks is the store's key order)
+          /\ Crash /\ Log([a |-> "Crash"])
        \/ /\ Crashes /\ Restart /\ Log([a |-> "Restart"])
        \/ /\ Crashes /\ \E k \in Pick(1..CatchUpSteps(wchain)) :
                          RestartCrash(k) /\ Log([a |-> "RestartCrash", k |-> k])
